@@ -80,6 +80,11 @@ def b_set(self, a, kw):
     return self.new_box(self.set_from_seq(v))
   if isinstance(v, SV) and isinstance(v.sort, MapOf):
     return self.new_box(SV(SetOf(v.sort.key), v.sort.dom(v.t)))
+  if isinstance(v, IterView) and getattr(v, 'source_map', None) is not None:
+    m = v.source_map
+    return self.new_box(SV(SetOf(m.sort.key), m.sort.dom(m.t)))
+  if isinstance(v, IterView) and v.elem_sort is not None:
+    return self.new_box(self.set_from_seq(self.deref(_to_seq(self, [v], 'tuple'))))
   if isinstance(v, PyTuple):
     s0 = hint.elem if hint else self.sort_of(v[0]) if v else None
     if s0 is None:
@@ -222,6 +227,32 @@ def b_zip(self, a, kw):
   return IterView(n, lambda k: PyTuple(i.at(k) for i in its), None)
 
 
+@H('map')
+def b_map(self, a, kw):
+  from .calls import call_value
+  f = a[0]
+  it = as_iter(self, a[1])
+  st = getattr(it, 'static', None)
+  if st is not None:
+    return as_iter(self, PyTuple(call_value(self, f, [x], {}) for x in st))
+  probe = call_value(self, f, [it.at(z3.Int(fresh_name('probe')))], {})
+  es = self.sort_of(probe)
+  return IterView(it.length, lambda k: call_value(self, f, [it.at(k)], {}), es)
+
+
+@H('type')
+def b_type(self, a, kw):
+  v = self.deref(a[0])
+  if isinstance(v, SV) and getattr(v.sort, 'construct_like', None):
+    return Handler('type(x)', lambda ex, aa, kk, v=v: v.sort.construct_like(ex, v, aa, kk), 'type(x)(...) constructor')
+  raise OutsideSubset(f'type({v!r})')
+
+
+@H('hasattr')
+def b_hasattr(self, a, kw):
+  raise OutsideSubset('hasattr')
+
+
 @H('reversed')
 def b_reversed(self, a, kw):
   it = as_iter(self, a[0])
@@ -303,13 +334,45 @@ def b_str(self, a, kw):
 
 @H('sorted')
 def b_sorted(self, a, kw):
-  raise OutsideSubset('sorted(): give a Handler in the sidecar bindings for the key used')
+  """sorted(iterable) over an opaque sort: the permutation of the items ordered by an
+  uninterpreted strict total order lt!<Sort> (python string / tuple comparison)."""
+  if kw:
+    raise OutsideSubset('sorted() with key=/reverse=: give a Handler in the sidecar bindings')
+  it = as_iter(self, a[0])
+  es = it.elem_sort
+  if es is None or not isinstance(es, Opaque):
+    raise OutsideSubset('sorted() of non-opaque items')
+  S = SeqOf(es)
+  src = self.deref(_to_seq(self, [it], 'tuple'))
+  r = S.const('sorted')
+  lt = z3.Function('lt!' + es.name, es.z3(), es.z3(), z3.BoolSort())
+  x, y, w = [z3.Const(fresh_name(c), es.z3()) for c in 'xyw']
+  ax = [z3.ForAll([x], z3.Not(lt(x, x))),
+        z3.ForAll([x, y, w], z3.Implies(z3.And(lt(x, y), lt(y, w)), lt(x, w))),
+        z3.ForAll([x, y], z3.Or(lt(x, y), lt(y, x), x == y))]
+  for f in ax:
+    if not any(z3.eq(f, g) for g in self.axioms):
+      self.axioms.append(f)
+  i, j = z3.Int(fresh_name('i')), z3.Int(fresh_name('j'))
+  n = S.len(src.t)
+  pi = z3.Function(fresh_name('perm'), z3.IntSort(), z3.IntSort())
+  pinv = z3.Function(fresh_name('perminv'), z3.IntSort(), z3.IntSort())
+  inr = lambda e: z3.And(e >= 0, e < n)
+  self.assume(S.len(r) == n)
+  self.assume(qforall([i], z3.Implies(inr(i), z3.And(inr(pi(i)), pinv(pi(i)) == i, S.get(r, i) == S.get(src.t, pi(i)))), patterns=[S.get(r, i)]))
+  self.assume(qforall([j], z3.Implies(inr(j), z3.And(inr(pinv(j)), pi(pinv(j)) == j)), patterns=[pinv(j)]))
+  self.assume(qforall([i, j], z3.Implies(z3.And(inr(i), inr(j), i < j), z3.Not(lt(S.get(r, j), S.get(r, i)))),
+                      patterns=[z3.MultiPattern(S.get(r, i), S.get(r, j))]))
+  return self.new_box(SV(S, r))
 
 
 @H('getattr')
 def b_getattr(self, a, kw):
   if isinstance(a[1], Lit):
     return self.getattr_(a[0], a[1].py)
+  v = self.deref(a[0])
+  if isinstance(v, SV) and getattr(v.sort, 'getattr_dyn', None):
+    return v.sort.getattr_dyn(self, v, a[1])
   raise OutsideSubset('getattr with a computed name')
 
 
@@ -404,7 +467,7 @@ GLOBAL_BINDINGS.update({
 for _n in ('bool', 'int', 'str', 'set', 'tuple', 'list', 'dict', 'frozenset'):
   GLOBAL_BINDINGS[_n].tagname = _n
 GLOBAL_BINDINGS['float'] = TypeTag('float')
-GLOBAL_BINDINGS['type'] = TypeTag('type')
+GLOBAL_BINDINGS['type'].tagname = 'type'
 
 
 def call_method(self: Exec, recv, name, args, kwargs):
@@ -432,6 +495,8 @@ def set_method(self, box, v, name, args):
   s = v.sort
   if name in ('union', 'intersection', 'difference', 'issubset', 'issuperset', 'isdisjoint'):
     o = self.deref(args[0])
+    if isinstance(o, IterView):
+      o = self.deref(GLOBAL_BINDINGS['set'].fn(self, [GLOBAL_BINDINGS['tuple'].fn(self, [o], {})], {}))
     if isinstance(o, SV) and isinstance(o.sort, SeqOf):
       o = self.set_from_seq(o)
     o = self.coerce(o, s)
@@ -535,7 +600,9 @@ def seq_method(self, box, v, name, args):
 def map_method(self, box, v, name, args):
   s = v.sort
   if name == 'keys':
-    return as_iter(self, v)
+    iv = as_iter(self, v)
+    iv.source_map = v
+    return iv
   if name == 'items':
     it = as_iter(self, v)
     return IterView(it.length, lambda k: PyTuple((it.at(k), SV(s.val, s.get(v.t, it.at(k).t)))), None)
